@@ -8,6 +8,8 @@ import gen_cube as G
 
 ID = "C14"
 LEAN_MODULES = ["CatiiProps.C14"]
+USES_TRANSLATOR = True   # Gen/WalkGen.lean is rewritten from the current ccube._walk (tools/translate_walk.py)
+TRUSTED = ["tools/translate_walk.py (ccube._walk -> the sequence of callback invocations; the diagnostic counter intersection_data_points is skipped; set_intersect_merge_np is the list merge Kern.inter, which C08 ties to the kernel)"]
 RULE = ("exhaustive: every list of 1..3 one-axis dims over N<=3 rows, values < 2, every common; random: 1..4 dims, N<=40, "
         "extents 1..5, commons frequent/rare/absent; the same with explicit entries that list no row added to the dimensions; every third random cube is walked with a callback that itself walks the cube again at one of its calls; every third is walked again after 1-3 in-place changes of its dimensions (update of a cell, shift_common(v)). Observed: ccube(dims).interactions() as a multiset of (coords, row ids). "
         "Non-trivial = at least one item delivered; distinct by (dense columns, commons)")
@@ -194,6 +196,20 @@ def run(ctx):
         mm = sorted([[(-1 if c is None else c) for c in co], rows] for co, rows in m)
         if sorted(got) != mm:
             ctx.corr_fail("interactions differ: impl %s model %s" % (str(sorted(got))[:200], str(mm)[:200]), desc)
+    # the walk REGENERATED from the current ccube._walk (tools/translate_walk.py), on the same dimensions
+    try:
+        gans = ctx.model.run([{"dims": r["dims"]} for r in reqs], driver="Driver/WalkGen.lean")
+    except core.ModelBroken as e:
+        ctx.corr_fail("the walk regenerated from ccube._walk does not build/run: %s" % str(e)[-400:], {"translator": True})
+        return
+    ctx.hit("generated_model_requests", len(reqs))
+    for (desc, got), m in zip(pend, gans):
+        if not isinstance(m, list):
+            ctx.corr_fail("generated walk: %s" % str(m)[:200], desc)
+            continue
+        mm = sorted([[(-1 if c is None else c) for c in co], rows] for co, rows in m)
+        if sorted(got) != mm:
+            ctx.corr_fail("interactions differ: impl %s, walk regenerated from the source %s" % (str(sorted(got))[:200], str(mm)[:200]), desc)
 
 
 def replay(ctx, rep):
